@@ -186,9 +186,13 @@ func init() {
 		r.env.httpSrv[base] = &HTTPMount{handler: a[0]}
 		return S(base)
 	})
-	reg("net/http.Post", func(g *G, fr *Frame, fn *ssa.Function, a []Value) Value {
+	// post serves the request in-process. timeout (nil or a concrete/symbolic duration) is
+	// http.Client.Timeout: when non-zero, a timer is armed whose firing (an optional environment
+	// event, like every timer) aborts the exchange — the server then sees the body end with
+	// io.ErrUnexpectedEOF and the client gets a time-out error.
+	post := func(g *G, fr *Frame, fn *ssa.Function, rawURL, ctype Value, bodyArg Value, timeout Value) Value {
 		g.model("http.Post is served in-process by the handler mounted with verif.MountHTTP")
-		raw := concStr(g, a[0])
+		raw := concStr(g, rawURL)
 		u, err := url.Parse(raw)
 		if err != nil {
 			return Tuple{(*Value)(nil), g.mkError(S(err.Error()), Iface{})}
@@ -201,14 +205,35 @@ func init() {
 		bg := baseIntrinsics["context.Background"](g, fr, fn, nil)
 		P := g.run.P
 		rt := P.NamedType("net/http", "Request")
-		b, _ := a[2].(Iface)
+		b, _ := bodyArg.(Iface)
+		var expired *Value
+		var timer *Timer
+		if d, ok := timeout.(Int); ok && !(d.T == nil && d.C == 0) {
+			g.model("http.Client.Timeout: the whole exchange may be aborted by a timer firing (optional event)")
+			expired = new(Value)
+			*expired = Bool{C: false}
+			timer = g.run.env.newTimer(d, false)
+			timer.viaAfter = true
+			timer.owner = g
+			cell := expired
+			timer.fn = &Closure{Name: "http.Client.Timeout", Native: func(g *G, args []Value) Value {
+				*cell = Bool{C: true}
+				return nil
+			}}
+			if b.T != nil {
+				tb := P.NamedType(VerifPkg, "TimeoutBody")
+				tv := new(Value)
+				*tv = g.mkStruct(tb, map[string]Value{"R": b, "Expired": expired})
+				b = Iface{T: types.NewPointer(tb), V: tv}
+			}
+		}
 		var rc Value = Iface{}
 		if b.T != nil {
 			nop := P.Pkgs["io"].Func("NopCloser")
 			rc = g.callFn(&Closure{Fn: nop}, []Value{b}, g.top, token.NoPos)
 		}
 		hdr := &MapV{KT: types.Typ[types.String]}
-		g.mapSet(hdr, S("Content-Type"), Slice{a[1]})
+		g.mapSet(hdr, S("Content-Type"), Slice{ctype})
 		req := new(Value)
 		*req = g.mkStruct(rt, map[string]Value{"Method": S("POST"), "URL": g.urlValue(u), "Proto": S("HTTP/1.1"), "Header": hdr, "Body": rc, "Host": S(u.Host), "ctx": bg, "RemoteAddr": S("uploader")})
 		wt := P.NamedType(VerifPkg, "WSResponseWriter")
@@ -217,6 +242,12 @@ func init() {
 		h := m.handler.(Iface)
 		serve := g.findMethod(h.T, "ServeHTTP")
 		g.callFn(&Closure{Fn: serve}, []Value{h.V, Iface{T: types.NewPointer(wt), V: wv}, req}, g.top, token.NoPos)
+		if timer != nil {
+			timer.armed = false
+			if (*expired).(Bool).C {
+				return Tuple{(*Value)(nil), g.mkError(S("Post \""+raw+"\": context deadline exceeded (Client.Timeout exceeded while awaiting headers)"), Iface{})}
+			}
+		}
 		st := fieldByName(wt, (*wv).(Struct), "Status").(Int)
 		if st.C == 0 {
 			st = Int{C: 200}
@@ -229,6 +260,21 @@ func init() {
 		resp := new(Value)
 		*resp = g.mkStruct(respT, map[string]Value{"StatusCode": st, "Status": S(http.StatusText(int(st.C))), "Body": body, "Header": &MapV{KT: types.Typ[types.String]}})
 		return Tuple{resp, Iface{}}
+	}
+	reg("net/http.Post", func(g *G, fr *Frame, fn *ssa.Function, a []Value) Value {
+		return post(g, fr, fn, a[0], a[1], a[2], nil)
+	})
+	reg("(*net/http.Client).Post", func(g *G, fr *Frame, fn *ssa.Function, a []Value) Value {
+		cl, _ := a[0].(*Value)
+		if cl == nil {
+			g.goPanic("runtime error: invalid memory address or nil pointer dereference")
+		}
+		cs := (*cl).(Struct)
+		ct := g.run.P.NamedType("net/http", "Client")
+		if tr, _ := fieldByName(ct, cs, "Transport").(Iface); tr.T != nil {
+			g.inconclusive("(*http.Client).Post with a custom Transport")
+		}
+		return post(g, fr, fn, a[1], a[2], a[3], fieldByName(ct, cs, "Timeout"))
 	})
 	reg("net/http.Error", func(g *G, fr *Frame, fn *ssa.Function, a []Value) Value {
 		w := a[0].(Iface)
